@@ -18,6 +18,10 @@ mod rng;
 mod gen_gds;
 #[path = "../../sim/src/gen_lef.rs"]
 mod gen_lef;
+#[path = "../../sim/src/gdsref.rs"]
+mod gdsref;
+#[path = "../../sim/src/gen_nlib.rs"]
+mod gen_nlib;
 
 use gen_gds::{gen_lib, StrProfile};
 use rng::{run_seed, Tape};
@@ -144,6 +148,92 @@ fn one_gds(id: &str, t: &mut Tape, dir: &Path, probes: &mut std::collections::BT
             }
         }
     }
+    None
+}
+
+/// C03 on real files: a stream from the independent encoder (plus trailing bytes) through a regular file, a named
+/// pipe, and the same path overwritten by another stream of the same length. The library read is compared with the
+/// encoded model by writing it with the real writer and decoding that with the reference decoder.
+fn one_foreign(t: &mut Tape, dir: &Path, probes: &mut std::collections::BTreeMap<String, u64>) -> Option<Viol> {
+    let (nlib, _) = gen_nlib::gen_nlib(t);
+    let mut bytes = match gdsref::encode(&nlib) {
+        Ok(b) => b,
+        Err(_) => return None,
+    };
+    let endlib = bytes.len();
+    let tail = t.draw(40) as usize * (t.draw(3) as usize);
+    bytes.extend(std::iter::repeat(0u8).take(tail));
+    let same = |lib: &gds21::GdsLibrary, want: &gdsref::NLib| -> Result<(), String> {
+        let mut b = Vec::new();
+        lib.write(&mut b).map_err(|e| format!("rewrite failed: {}", e))?;
+        let mut pr = gdsref::DecodeProbes::default();
+        let got = gdsref::scan(&b, true).and_then(|r| gdsref::decode(&r, &mut pr))?;
+        match gdsref::diff(want, &got) {
+            None => Ok(()),
+            Some(d) => Err(format!("content differs at {}", d)),
+        }
+    };
+    let path = dir.join("foreign.gds");
+    std::fs::write(&path, &bytes).unwrap();
+    match gds21::GdsLibrary::open(&path) {
+        Err(e) => return Some(Viol { sig: "realfs:foreign-open/result".into(), detail: format!("a grammar-conformant stream in a regular file is rejected: {}", e) }),
+        Ok(l) => {
+            if let Err(e) = same(&l, &nlib) {
+                return Some(Viol { sig: "realfs:foreign-open/value".into(), detail: e });
+            }
+        }
+    }
+    // same path, same length, different content
+    let mut n2 = nlib.clone();
+    n2.version = n2.version.wrapping_add(1);
+    if let Ok(mut b2) = gdsref::encode(&n2) {
+        b2.extend(std::iter::repeat(0u8).take(tail));
+        if b2.len() == bytes.len() {
+            std::fs::write(&path, &b2).unwrap();
+            match gds21::GdsLibrary::open(&path) {
+                Err(e) => return Some(Viol { sig: "realfs:foreign-reopen/result".into(), detail: e.to_string() }),
+                Ok(l) => {
+                    if let Err(e) = same(&l, &n2) {
+                        return Some(Viol { sig: "realfs:foreign-reopen/value".into(), detail: format!("after the file was replaced by another stream of the same length: {}", e) });
+                    }
+                    *probes.entry("reopen_after_same_length_overwrite".into()).or_insert(0) += 1;
+                }
+            }
+        }
+    }
+    // through a named pipe
+    if bytes.len() < 60_000 {
+        let fifo = dir.join("foreign.pipe");
+        let _ = std::fs::remove_file(&fifo);
+        let c = std::ffi::CString::new(fifo.to_string_lossy().as_bytes()).unwrap();
+        if unsafe { libc::mkfifo(c.as_ptr(), 0o600) } == 0 {
+            let data = bytes.clone();
+            let fp = fifo.clone();
+            let w = std::thread::spawn(move || {
+                if let Ok(mut f) = std::fs::OpenOptions::new().write(true).open(&fp) {
+                    use std::io::Write;
+                    let _ = f.write_all(&data);
+                }
+            });
+            let r = gds21::GdsLibrary::open(&fifo);
+            let keep = {
+                use std::os::unix::fs::OpenOptionsExt;
+                std::fs::OpenOptions::new().read(true).custom_flags(libc::O_NONBLOCK).open(&fifo)
+            };
+            let _ = w.join();
+            drop(keep);
+            *probes.entry("opened_through_a_fifo".into()).or_insert(0) += 1;
+            match r {
+                Err(e) => return Some(Viol { sig: "realfs:foreign-fifo/result".into(), detail: format!("a conformant stream delivered through a named pipe is rejected: {}", e) }),
+                Ok(l) => {
+                    if let Err(e) = same(&l, &nlib) {
+                        return Some(Viol { sig: "realfs:foreign-fifo/value".into(), detail: e });
+                    }
+                }
+            }
+        }
+    }
+    let _ = endlib;
     None
 }
 
@@ -316,6 +406,7 @@ fn run_one(id: &str, master: u64, index: u64, dir: &Path, probes: &mut std::coll
     let mut t = Tape::record(run_seed(master, &format!("{}-realfs", id), index));
     let r = std::panic::catch_unwind(std::panic::AssertUnwindSafe(|| match id {
         "C01" | "C02" => one_gds(id, &mut t, dir, probes),
+        "C03" => one_foreign(&mut t, dir, probes),
         "C05" => one_lef(&mut t, dir, probes),
         "C18" => one_ser(&mut t, dir, probes),
         _ => None,
